@@ -27,13 +27,15 @@ TRound == Ev("round") /\ Rec[l].cast = TRUE /\ Rec[l].stored = TRUE /\ UNCHANGED
 \* through SQL: every written value comes back (twice, it was written twice) - under the literal deviation: a value equal to it as a double
 SqlSame(x, y) == IF "SqlNumericLiteralViaF64" \in Dev THEN x.cls = y.cls /\ x.frank = y.frank ELSE x.cls = y.cls /\ x.rank = y.rank
 TSqlRound == /\ Ev("sqlround") /\ UNCHANGED vals /\ Keep
+             /\ (\A i \in DOMAIN Rec[l].read : Rec[l].read[i] >= 0)          \* every value read is one that was written (an id of the grid)
              /\ LET w == Of(Rec[l].written)  r == Of(Rec[l].read) IN
                   /\ \A i \in DOMAIN r : r[i].cls # "null" => \E j \in DOMAIN w : SqlSame(r[i], w[j])
                   /\ \A j \in DOMAIN w : Cardinality({i \in DOMAIN r : SqlSame(r[i], w[j])}) = 2 * Cardinality({k \in DOMAIN w : SqlSame(w[k], w[j])})
                   /\ Cardinality({i \in DOMAIN r : r[i].cls = "null"}) = 1
                   /\ \A i \in DOMAIN Rec[l].read : Rec[l].read[i] >= 0
-TSorted == Ev("sorted") /\ L!InOrder(Of(Rec[l].ids)) /\ (\A i \in DOMAIN Rec[l].ids : Rec[l].ids[i] >= 0) /\ UNCHANGED vals /\ Keep
+TSorted == Ev("sorted") /\ (\A i \in DOMAIN Rec[l].ids : Rec[l].ids[i] >= 0) /\ L!InOrder(Of(Rec[l].ids)) /\ UNCHANGED vals /\ Keep
 TClasses == /\ Ev("classes") /\ UNCHANGED vals /\ Keep
+            /\ (\A i \in DOMAIN Rec[l].ids : Rec[l].ids[i] >= 0)
             /\ LET r == Of(Rec[l].ids) IN
                  /\ \A i, j \in DOMAIN r : i # j => ~L!Eq(r[i], r[j])
                  /\ \A i \in DOMAIN Rec[l].ids : Rec[l].ids[i] >= 0
